@@ -50,7 +50,12 @@ def run(ctx):
         elif low == "rz":
             slot = mk_fn("setitem", [mk_fn("zeros", [SPS]), SliceV(Const(None), half, Const(None)), Form.num(1)])
             # kron(bits, ones(sps)) * tile(slot, len(bits)) is kron(bits, slot): the slot pattern replicated per bit
-            ok = isinstance(sig, Form) and (any(sig == aff(c * mask) for c in nrz_core()) or sig == aff(mk_fn("kron", [BITS, slot])))
+            # or: one row of sps samples per bit, the first sps//2 columns set to the bit, read row by row
+            allrows = SliceV(Const(None), Const(None), Const(None))
+            table = mk_fn("setitem", [mk_fn("zeros", [TupleV([mk_fn("size", [BITS]), SPS])]), TupleV([allrows, SliceV(Const(None), half, Const(None))]),
+                                      Form.atom(("idx", BITS, TupleV([allrows, Const(None)])))])
+            by_rows = [mk_fn(f_, [table]) for f_ in ("ravel", "flatten")] + [mk_fn("reshape", [table, Form.num(-1)])]
+            ok = isinstance(sig, Form) and (any(sig == aff(c * mask) for c in nrz_core()) or sig == aff(mk_fn("kron", [BITS, slot])) or any(sig == aff(r_) for r_ in by_rows))
             ctx.check("C05.1", ok, fi, node, f"DAC [{ps}] = {sig!r}", "NRZ times the sps-periodic mask with ones on [0, sps//2)",
                       f"RZ waveform is not bias + Vout*kron(bits, ones(sps))*{mask!r}")
         else:
